@@ -1,5 +1,5 @@
 // C06 rw_xv: rwlock and qrwlock under the controlled multi-vCPU scheduler.
-// ops: R/W blocking read/write lock, r/w timed (40us), s/x try_lock shared/exclusive (qrwlock only), i<k> interrupt thread k, y yield
+// ops: h blocking read lock held for 200 us, R/W blocking read/write lock, r/w timed (40us), s/x try_lock shared/exclusive (qrwlock only), i<k> interrupt thread k, y yield
 #define protected public
 #define private public
 #include <photon/thread/thread.h>
@@ -14,6 +14,8 @@ struct St {
     bool q; rwlock rw; qrwlock qrw;
     int readers = 0, writers = 0, acquired = 0, released = 0;
     mvprog::Prog prog; int interrupts[16] = {0}; bool inlock[16] = {false}; std::string log;
+    std::vector<uint64_t> free_times; uint64_t last_writer_acq = 0;    // virtual times: lock became completely free / a writer was admitted
+    int writers_waiting = 0; std::vector<int> ww_at_free;              // writers inside lock() when the lock became free
 };
 static St* G;
 
@@ -24,25 +26,39 @@ static void body(mvprog::PT& p) {
         if (op == 'y') { thread_yield(); continue; }
         if (op == 'p') { int npad = pmc_choose(3, PMC_PROG, 0, "pad yields"); for (int kk = 0; kk < npad; kk++) thread_yield(); continue; }   // every arrival order on one vCPU
         if (op == 'i') { int t = p.ops[++i] - '0'; if (G->prog.pts[t].th) { G->interrupts[t]++; thread_interrupt(G->prog.pts[t].th, EINTR); } p.result += "i"; continue; }
+        bool hold = (op == 'h');              // h: blocking read lock, held for 200 us of virtual time
+        if (hold) op = 'R';
         bool wr = (op == 'W' || op == 'w' || op == 'x');
         bool timed = (op == 'r' || op == 'w'), tryl = (op == 's' || op == 'x');
         int mode = wr ? WLOCK : RLOCK;
         uint64_t t0 = mv_now(); errno = 0; int r;
-        G->inlock[me] = true;
+        G->inlock[me] = true; if (wr && !tryl) G->writers_waiting++;
         if (timed) mv_register_deadline(mv_now() + TMO);
         if (G->q) r = tryl ? G->qrw.try_lock(mode) : G->qrw.lock(mode, timed ? Timeout(TMO) : Timeout());
         else r = G->rw.lock(mode, timed ? Timeout(TMO) : Timeout());
         int e = errno;
-        G->inlock[me] = false;
+        G->inlock[me] = false; if (wr && !tryl) G->writers_waiting--;
         if (r == 0) {
-            if (wr) { if (G->writers || G->readers) pmc_violation("exclusion", "writer %d admitted while %d writer(s) and %d reader(s) hold the lock", me, G->writers, G->readers); G->writers++; }
-            else { if (G->writers) pmc_violation("exclusion", "reader %d admitted while a writer holds the lock", me); G->readers++; }
+            if (wr) { if (G->writers || G->readers) pmc_violation("exclusion", "writer %d admitted while %d writer(s) and %d reader(s) hold the lock", me, G->writers, G->readers); G->writers++; G->last_writer_acq = mv_now(); }
+            else {
+                if (G->writers) pmc_violation("exclusion", "reader %d admitted while a writer holds the lock", me); G->readers++;
+                // "after the last holder unlocks ... all waiting readers are admitted": a reader that was already waiting when the lock
+                // became free must not be admitted only after another reader's whole (200 us) hold
+                for (size_t fi = 0; fi < G->free_times.size(); fi++) {
+                    uint64_t F = G->free_times[fi];
+                    if (t0 <= F && mv_now() >= F + 150 && G->last_writer_acq < F && G->ww_at_free[fi] == 0)
+                        pmc_violation("reader-admitted-late", "reader %d waited since +%llu us, the lock became free at +%llu us with no writer waiting, but it was admitted only at +%llu us (readers admitted one at a time?)",
+                                      me, (unsigned long long)(t0 - MV_T0), (unsigned long long)(F - MV_T0), (unsigned long long)(mv_now() - MV_T0));
+                }
+            }
             G->acquired++;
             G->log += char('a' + me); G->log += wr ? 'W' : 'R';
             mv_yield("holding");
             if (G->prog.pts.size() > (size_t)G->prog.nos) thread_yield();
             mv_yield("holding 2");
+            if (hold) thread_usleep(200);
             if (wr) G->writers--; else G->readers--;
+            if (!G->writers && !G->readers) { G->free_times.push_back(mv_now()); G->ww_at_free.push_back(G->writers_waiting); }
             G->released++;
             int u = G->q ? G->qrw.unlock() : G->rw.unlock();
             if (u != 0) pmc_violation("unlock-failed", "unlock returned %d", u);
@@ -103,6 +119,10 @@ static const PmcConfig CFG[] = {
     {"q:W|r:tdev",     3, {1,2}, {1,1}, {0,0}, {2,2}, ""},
     {"r:R|w,R:tdev",   3, {1,2}, {1,1}, {0,0}, {1,2}, "timed writer at the queue head, reader behind it"},
     {"q:R|w,W:tdev",   2, {1,2}, {1,1}, {0,0}, {2,2}, "timed writer consumes the notification meant for a writer"},
+    {"r:ph,pw,ph,ph:tdev", 3, {0,0}, {1,1}, {0,0}, {0,0}, "one vCPU: a timed writer queued behind a reader gives up; the readers queued behind it must all be admitted together"},
+    {"r:ph,pW,ph,ph,ppi1", 3, {0,0}, {0,0}, {0,0}, {0,0}, "... the writer is interrupted instead"},
+    {"q:ph,pw,ph,ph:tdev", 3, {0,0}, {1,1}, {0,0}, {0,0}, ""},
+    {"r:h|w,h|h:tdev",   2, {1,1}, {1,1}, {0,0}, {2,2}, ""},
     {"q:W|x,s",        3, {1,2}, {0,0}, {0,0}, {0,0}, "try_lock"},
     {"r:pW,pR,pR",     3, {0,0}, {0,0}, {0,0}, {0,0}, "one vCPU, every arrival order"},
     {"q:pW,pR,pW",     3, {0,0}, {0,0}, {0,0}, {0,0}, ""},
